@@ -62,6 +62,15 @@ func parsePushes(b []byte) ([][2]string, string) {
 			continue
 		}
 		l, ok := readLine()
+		if ok && l == fmt.Sprintf("*%d", bigListLen) { // the subscriber's own LRANGE replies (20 kB: more than one write buffer) share the connection too
+			for k := 0; k < bigListLen; k++ {
+				e, okb := readBulk()
+				if !okb || e != bigListElem(k) {
+					return out, fmt.Sprintf("the subscriber's own LRANGE reply is damaged at element %d, %d bytes before the end", k, rest)
+				}
+			}
+			continue
+		}
 		if !ok || l != "*3" {
 			return out, fmt.Sprintf("expected a 3-element push at %d bytes before the end, found %q", rest, l)
 		}
@@ -76,6 +85,10 @@ func parsePushes(b []byte) ([][2]string, string) {
 	return out, ""
 }
 
+const bigListLen = 200
+
+func bigListElem(k int) string { return fmt.Sprintf("elem-%03d-", k) + strings.Repeat("x", 90) }
+
 func pubsubConc(seed int64, rounds int, want map[string]bool, enc *json.Encoder) {
 	if !want["all"] && !want["pubsub"] {
 		return
@@ -87,6 +100,19 @@ func pubsubConc(seed int64, rounds int, want map[string]bool, enc *json.Encoder)
 		ctx, cancel := context.WithCancel(context.Background())
 		const nsub, npub, nmsg = 3, 4, 25
 		subs := make([]*sconn, nsub)
+		{
+			args := []string{"RPUSH", "big"}
+			for k := 0; k < bigListLen; k++ {
+				args = append(args, bigListElem(k))
+			}
+			mgr.ExecCommand(ctx, func() [][]byte {
+				out := make([][]byte, len(args))
+				for i, a := range args {
+					out[i] = []byte(a)
+				}
+				return out
+			}(), nil)
+		}
 		for i := range subs {
 			subs[i] = newSconn(ctx, mgr)
 			subs[i].c.Write(encCmd("SUBSCRIBE", "news", "sport"))
@@ -131,6 +157,9 @@ func pubsubConc(seed int64, rounds int, want map[string]bool, enc *json.Encoder)
 					}
 					s.c.SetWriteDeadline(time.Now().Add(2 * time.Second))
 					s.c.Write(encCmd("PING"))
+					time.Sleep(200 * time.Microsecond)
+					s.c.SetWriteDeadline(time.Now().Add(2 * time.Second))
+					s.c.Write(encCmd("LRANGE", "big", "0", "-1"))
 					time.Sleep(200 * time.Microsecond)
 				}
 			}(subs[i])
